@@ -39,6 +39,8 @@ mod workspace_symbol;
 mod test;
 #[cfg(test)]
 mod test_lib;
+#[cfg(emmyluals_emmylua_analyzer_rust_verif)]
+mod verif_hook;
 
 pub use initialized::{ClientConfig, init_analysis, initialized_handler};
 use lsp_types::{ClientCapabilities, ServerCapabilities};
